@@ -40,12 +40,12 @@ def _worker(job):
                           "lines": list(fi.span), "sha256": fi.sha256})
         return {"unit": unit, "title": u.name, "kind": u.kind, "functions": funcs, "paths": u.paths,
                 "live_paths": u.feasible_exits, "time": round(time.time() - t0, 3), "obligations": obs,
-                "noops": sorted(set(sess.noops)), "inlined": sorted(sess.inlined),
+                "noops": sorted(set(sess.noops)), "inlined": sorted(sess.inlined), "interpreted": sorted(sess.interpreted),
                 "contracts_used": sorted(sess.used_contracts), "lib_used": sorted(sess.used_lib),
                 "samples": samples, "notes": u.notes, "error": None}
     except Exception as e:   # checker error (exit 3), never a violation
         return {"unit": unit, "title": unit, "kind": "error", "functions": [], "paths": 0, "live_paths": 0,
-                "time": round(time.time() - t0, 3), "obligations": [], "noops": [], "inlined": [],
+                "time": round(time.time() - t0, 3), "obligations": [], "noops": [], "inlined": [], "interpreted": [],
                 "contracts_used": [], "lib_used": [], "samples": [], "notes": [],
                 "error": "%s: %s\n%s" % (type(e).__name__, e, traceback.format_exc(limit=8))}
 
